@@ -181,6 +181,20 @@ CHECKS["C18"] = dict(
     technique="TLC model checking of the CRC definition + TLC trace validation of every value returned by both implementations",
 )
 
+CHECKS["C20"] = dict(
+    category="model_checking",
+    text="Stats.tla transcribes jls_statistics_add (Welford), jls_statistics_compute_* (two-pass) and jls_statistics_combine (four-way case split, parallel "
+         "variance formula) over exact rationals; TLC checks for every sequence of <= 5 (thorough 6) samples over {-3,-1,0,2,3}, every split into two and "
+         "three parts and both groupings, that all evaluation routes give the same statistics, that the variance is non-negative, min <= mean <= max, and "
+         "that the empty accumulator is the identity. Every sequence of that state space, seeded longer ones (constant, alternating, random, with offset) "
+         "and structured 10^4-sample streams are then run through the same routes on the real jls_statistics_* - including operand aliasing (result "
+         "overwrites either operand) and the f32/f64 compute variants - and TLC judges the integer projections (count, min, max, llround(mean*k), "
+         "llround(s+mean^2*k), residuals <= 1e-6, var >= 0, mean within [min,max]) against the exact triple (StatsTrace.tla).",
+    design_ref="DESIGN.md section 6 C20, section 7, section 12",
+    note="Trusted: TLC. Integer-valued inputs only: precision loss over many decades of magnitude / large offsets is numeric analysis and is not decided.",
+    technique="TLC model checking of an exact-rational transcription + replay of its state space into the C code + TLC validation of integer projections",
+)
+
 NOT_YET = {}
 
 
